@@ -136,9 +136,10 @@ def jsonable(x):
 
 def write_replay(pid, payload):
     payload = jsonable(payload)
-    os.makedirs(os.path.join(VERIF, "replays"), exist_ok=True)
+    rdir = os.environ.get("VERIF_REPLAY_DIR") or os.path.join(VERIF, "replays")
+    os.makedirs(rdir, exist_ok=True)
     h = hashlib.sha1(json.dumps(payload, sort_keys=True, default=str).encode()).hexdigest()[:12]
-    path = os.path.join(VERIF, "replays", f"{pid}-{h}.json")
+    path = os.path.join(rdir, f"{pid}-{h}.json")
     with open(path, "w") as f:
         json.dump(payload, f, indent=1, default=str)
     return path
@@ -232,8 +233,9 @@ def main():
               assumptions=spec.get("assumptions", []) + outcome.get("assumptions", []),
               wall_s=round(time.time() - t0, 2), violations=len(violations),
               known_findings=[k["id"] for k, _ in known_hits])
-    os.makedirs(os.path.join(VERIF, "evidence"), exist_ok=True)
-    with open(os.path.join(VERIF, "evidence", pid + ".json"), "w") as f:
+    evdir = os.environ.get("VERIF_EVIDENCE_DIR") or os.path.join(VERIF, "evidence")
+    os.makedirs(evdir, exist_ok=True)
+    with open(os.path.join(evdir, pid + ".json"), "w") as f:
         json.dump(jsonable(ev), f, indent=1, default=str)
 
     if violations:
